@@ -190,6 +190,30 @@ Proof.
   apply IH, descent_step_level, H0.
 Qed.
 
+(* the zone a descent arrives at encloses the name being resolved, when every referral step in it
+   passed validReferral (processDelegation rejects the others) and it started from an ancestor *)
+Fixpoint valid_steps (q : name) (st : name * nat) (steps : list dstep) : Prop :=
+  match steps with
+  | [] => True
+  | s :: rest =>
+      match s with
+      | StepUncached c | StepCached c => progressing_referral c (fst st) q = true
+      | StepMinimize => True
+      end /\ valid_steps q (descent_step st s) rest
+  end.
+
+Lemma descent_encloses_gen q steps : forall st,
+  is_sub (fst st) q = true -> valid_steps q st steps -> is_sub (fst (fold_left descent_step steps st)) q = true.
+Proof.
+  induction steps as [|s rest IH]; intros st H0 Hv; cbn [fold_left]; [exact H0|].
+  destruct Hv as [Hs Hr]. apply IH; [|exact Hr].
+  destruct st as [z lv], s as [c|c|]; cbn in *; try exact H0; exact (progressing_keeps_enclosing _ _ _ Hs).
+Qed.
+
+Lemma descent_encloses q k steps :
+  valid_steps q (descent_start (firstn k q)) steps -> is_sub (fst (descent (firstn k q) steps)) q = true.
+Proof. intros Hv. apply descent_encloses_gen; [apply firstn_is_sub | exact Hv]. Qed.
+
 (* before commit 767eb6f the cached step only incremented: the root's servers, a referral two
    labels down, delegation already cached, left level 1 for a two-label zone *)
 Definition l3 : name := [[108; 51]].
